@@ -20,10 +20,7 @@ func newFrontModel(r *Repo) *frontModel {
 	it := newInterp(r)
 	m := newModel(it, modelOpts{Ast: true})
 	// a pristine tree as tree.New builds it
-	t := it.newObj(m.treeT)
-	t.field("Rules").v = &MapV{map[any]Value{}}
-	t.field("rulesCount").v = &MapV{map[any]Value{}}
-	t.field("Ast").v = true
+	t := it.newTree(modelOpts{Ast: true})
 	m.tree = t
 	return &frontModel{it: it, tree: t, m: m}
 }
